@@ -21,7 +21,7 @@ TEXT = {
  'C07': ('scheduler-future cell: resolves at most once, only after the operation finished, pending poll leaves a waker or a result; detached operations still run', 'machine-checked invariants (Coq, L2) + generated poll table/facts + controlled-runtime monitors'),
  'C13': ('suspend as a future operation: everything before finished at resolution, nothing after starts before resume', 'machine-checked corollary (Coq, L2) + controlled-runtime suspend oracle on the queue-level API'),
  'C10': ('independence of objects with gated operations', 'machine-checked pool invariant (Coq) + controlled-runtime gate profile'),
- 'C14': ('lifetime protocol of the unsafe sites', 'machine-checked protocol invariants (Coq) + canary payloads'),
+ 'C14': ('PARTIAL BY NATURE - the lifetime protocol the unsafe sites rely on: a queued or in-hand lifetime-erased sync job belongs to a caller still inside that call and has not run; closures run at most once and only after being pushed; nothing on an object runs after its free operation (L1h theorems, all programs/schedules); canary payloads on the real crate in every profile; undefined behaviour outside the protocol is out of reach of the model', 'machine-checked protocol invariants (Coq, L1h) + canary payloads under the controlled runtime'),
 }
 PENDING = {
  'C06': 'futures/waker layer (coq/theories/L2) still under construction in this session; wake-position exploration exists in the harness but no theorem yet, so the property is not claimed',
@@ -30,7 +30,7 @@ PENDING = {
  'C10': 'needs gated operations in the L1 liveness proof (terminal states with k blocked pool threads); only the gate profile of the harness exists; not claimed',
  'C12': 'pipe layer (coq/theories/Pipe) still under construction; not claimed until its theorems compile',
  'C13': 'depends on the futures layer (coq/theories/L2); the suspend oracle exists in the harness but no theorem yet; not claimed',
- 'C14': 'memory safety of the Rust implementation itself (aliasing, transmute validity, allocator behaviour) cannot be stated over the executable model; the lifetime protocol it relies on is covered by C01/C02/C04/C05 and by canary payloads in every profile; a dedicated protocol theorem is not built yet',
+#'C14': 'memory safety of the Rust implementation itself (aliasing, transmute validity, allocator behaviour) cannot be stated over the executable model; the lifetime protocol it relies on is covered by C01/C02/C04/C05 and by canary payloads in every profile; a dedicated protocol theorem is not built yet',
  'C16': 'pipe layer (coq/theories/Pipe) still under construction; finding F4 was found by the harness and fixed; not claimed until the theorems compile',
 }
 def main():
